@@ -84,5 +84,6 @@ func newRESTConfig() *rest.Config {
 	}
 
 	rest.AddUserAgent(cfg, fmt.Sprintf("kube-gateway/pid-%v", os.Getpid()))
+	verifHookRESTConfig(cfg)
 	return cfg
 }
